@@ -2,7 +2,7 @@
     harness from the front end's resolved trees, a result leaves as an s-expression that the
     harness also prints for the real [Spec]. References are printed as their position in
     the final reference table (implicit names are hashes in the code, keys in the model). *)
-From Oal Require Export Eval Typing.
+From Oal Require Export Eval Typing Strat.
 Local Open Scope N_scope.
 
 Inductive sx := A (z : Z) | L (l : list sx).
@@ -282,4 +282,14 @@ Definition run_typing (x : sx) : sx :=
       | _, _ => L [A 0%Z]
       end
   | _ => L [A 0%Z]
+  end.
+
+(** the stratification tie: does the recursion check's verdict give a rank? (first-order programs only) *)
+Definition run_strat (x : sx) : sx :=
+  match dprog x with
+  | None => L [A 4%Z]
+  | Some (P, rs) =>
+      let rk := ranks P in
+      L [ebool (stratified P rs);
+         ebool (all_decls P (fun _ _ d => fo P (d_rhs d)) && forallb (fo P) rs)]
   end.
